@@ -48,33 +48,39 @@ structure Params where
 def Params.chunksizes (p : Params) (ind : Int) : Int :=
   (p.chunk : Int) + (if ind < (p.residual : Int) then 1 else 0)
 
-/-- one iteration of the `while i < len(seq)` body; `none` = the Python code raised -/
-def step (p : Params) (s : St) : Option St := do
-  let div0 ← p.seq[s.i]?
-  let lastDiv ← s.divisions.head?
-  let lastLoc ← s.locations.head?
-  -- position of the first occurrence of the candidate division
-  let (i, div, ind, pos) ←
-    if p.dup then do
-      let ind0 : Int := match s.ind with
-        | some k => k
-        | none => (bisectLeft p.uniq div0 : Nat)
-      let offsRemain : Int := (p.offsets.length : Int) - ind0
-      if p.enforce && s.divsRemain > offsRemain then do
-        let ind1 := ind0 - (s.divsRemain - offsRemain)
-        let i1 ← pyGet? p.offsets ind1
-        let div1 ← p.seq[i1]?
-        let pos ← pyGet? p.offsets ind1
-        pure (i1, div1, some ind1, pos)
-      else do
-        let pos ← pyGet? p.offsets ind0
-        pure (s.i, div0, some ind0, pos)
-    else pure (s.i, div0, s.ind, s.i)
+/-- the `if duplicates:` part of the loop body for a resolved `ind` -/
+def candidateDup (p : Params) (s : St) (div0 : Nat) (ind0 : Int) : Option (Nat × Nat × Option Int × Nat) :=
+  let offsRemain : Int := (p.offsets.length : Int) - ind0
+  if p.enforce && s.divsRemain > offsRemain then do
+    -- avoid "over-stepping" too many unique values
+    let ind1 := ind0 - (s.divsRemain - offsRemain)
+    let i1 ← pyGet? p.offsets ind1
+    let div1 ← p.seq[i1]?
+    pure (i1, div1, some ind1, i1)
+  else do
+    let pos ← pyGet? p.offsets ind0
+    pure (s.i, div0, some ind0, pos)
+
+/-- top of the loop body: the candidate `(i, div, ind, pos)`; `pos` is the position of the first
+    occurrence of `div` (which is `i` when `seq` has no duplicates). `none` = the Python code raised -/
+def candidate (p : Params) (s : St) (div0 : Nat) : Option (Nat × Nat × Option Int × Nat) :=
+  if p.dup then
+    candidateDup p s div0 (match s.ind with
+      | some k => k
+      | none => (bisectLeft p.uniq div0 : Nat))
+  else some (s.i, div0, s.ind, s.i)
+
+/-- `int(offsets[ind]) if ind < len(offsets) else len(seq)` -/
+def nextI (p : Params) (k : Int) : Option Nat :=
+  if k < (p.offsets.length : Int) then pyGet? p.offsets k else some p.seq.length
+
+/-- bottom of the loop body: either skip to the next candidate or append `(div, pos)` -/
+def advance (p : Params) (s : St) (lastDiv lastLoc i div : Nat) (ind : Option Int) (pos : Nat) : Option St :=
   if div ≤ lastDiv then
     if p.dup then do
       let k ← ind
       let k' := k + 1
-      let i' ← if k' < (p.offsets.length : Int) then pyGet? p.offsets k' else pure p.seq.length
+      let i' ← nextI p k'
       pure { s with i := i', ind := some k' }
     else
       pure { s with i := i + 1, ind := ind }
@@ -85,6 +91,14 @@ def step (p : Params) (s : St) : Option St := do
     let stepLen : Int := max 1 (p.chunksizes nd - drift)
     pure { i := pos + stepLen.toNat, ind := none, drift := drift, divsRemain := divsRemain,
            divisions := div :: s.divisions, locations := pos :: s.locations }
+
+/-- one iteration of the `while i < len(seq)` body; `none` = the Python code raised -/
+def step (p : Params) (s : St) : Option St := do
+  let div0 ← p.seq[s.i]?
+  let lastDiv ← s.divisions.head?
+  let lastLoc ← s.locations.head?
+  let (i, div, ind, pos) ← candidate p s div0
+  advance p s lastDiv lastLoc i div ind pos
 
 def loop (p : Params) : Nat → St → Option St
   | 0, _ => none
@@ -105,20 +119,30 @@ def mkParams (seq : List Nat) (m : Mode) : Params :=
   | .chunksize c =>
     { seq, uniq, offsets, dup, enforce := false, subtract := false, chunk := c, residual := 0 }
 
+/-- `chunksize = len(seq) // npartitions` raises ZeroDivisionError for `npartitions = 0`
+    (`npartitions=0` is falsy, so Python actually takes the `chunksize=None` path and raises TypeError) -/
+def guardMode : Mode → Option Unit
+  | .npartitions 0 => none
+  | _ => some ()
+
+/-- initial state of the loop -/
+def initSt (p : Params) (m : Mode) (first : Nat) : St :=
+  let n : Int := match m with | .npartitions n => n | .chunksize _ => 0
+  { i := (p.chunksizes 0).toNat, ind := none, drift := 0,
+    divsRemain := if p.enforce then n - 1 else 0,
+    divisions := [first], locations := [0] }
+
+/-- fuel handed to the loop by `sdl` -/
+def sdlFuel (seq : List Nat) : Nat := 2 * seq.length + 4
+
 /-- `sorted_division_locations(seq, npartitions=n)` / `(seq, chunksize=c)`;
     `none` when the Python code raises (empty `seq`, `npartitions = 0`) . Returns `(divisions, locations)`. -/
 def sdl (seq : List Nat) (m : Mode) : Option (List Nat × List Nat) := do
   let first ← seq.head?
   let last ← seq.getLast?
-  match m with
-  | .npartitions 0 => none
-  | _ => pure ()
+  guardMode m
   let p := mkParams seq m
-  let n : Int := match m with | .npartitions n => n | .chunksize _ => 0
-  let s0 : St := { i := (p.chunksizes 0).toNat, ind := none, drift := 0,
-                   divsRemain := if p.enforce then n - 1 else 0,
-                   divisions := [first], locations := [0] }
-  let s ← loop p (2 * seq.length + 4) s0
+  let s ← loop p (sdlFuel seq) (initSt p m first)
   pure ((last :: s.divisions).reverse, (seq.length :: s.locations).reverse)
 
 end Dask.SDL
